@@ -18,6 +18,8 @@ type c04Case struct {
 	From gen.U64   `json:"from"`
 	To   gen.U64   `json:"to"`
 	BM   gen.Words `json:"bm,omitempty"`
+	// Shape names a generated bitmap over a very tall mask: "all" (every stored node) or "sampled"
+	Shape string `json:"shape,omitempty"`
 }
 
 func init() {
@@ -28,7 +30,7 @@ func init() {
 		Level:    "exploration",
 		Rule: "E1 bounded-exhaustive enumeration: AllPaths on every level mask of height ≤H × every ordered pair (from,to) of the boundary set {p, p-1, p+1, p with a flipped mask bit, p with a flipped search bit | every node p, stored or not} ∪ {0, 2^32-1, 2^32, 2^63, 2^64-1} (heights above H with the pair set {p, p±1}²), oracle = stored nodes of the recursive walk, sorted, filtered by from ≤ p < to; " +
 			"tall sparse masks up to height 30 with narrow windows around a path family, oracle = stored prefixes of the integers in the window (cross-checked against the walk on small heights). " +
-			"Decode on every mask with ≤16 stored nodes × every subset × bitmap shapes {exact, no words, extra words, garbage in bits ≥ size}, on masks up to height 8 with empty/full/singleton/pair subsets, and on multi-word masks of heights 7..9 (thorough 11; leaf-only, full, leaf + one level) with singletons and pairs of indexes next to word boundaries at EVERY bitmap length; oracle = i-th stored node of the walk for every set bit i < size. " +
+			"Decode on every mask with ≤16 stored nodes × every subset × bitmap shapes {exact, no words, extra words, garbage in bits ≥ size}, on masks up to height 8 with empty/full/singleton/pair subsets, and on multi-word masks of heights 7..9 (thorough 11; leaf-only, full, leaf + one level) with singletons and pairs of indexes next to word boundaries at EVERY bitmap length; oracle = i-th stored node of the walk for every set bit i < size; on 9 masks of EVERY height 16..20 (thorough 22; leaf-only, full, leaf + root / middle level / both, every other level, top three levels, full without the root / without the level above the leaves: 10^5..10^7 stored nodes) the bitmap of all stored nodes and a sampled bitmap (first and last 70 indexes, around every 1/16th and every power of two from either end). " +
 			"A case is one call; non-trivial when the expected output is neither empty nor the complete node list.",
 		Assumptions: []string{
 			"complete over (from,to) only on the boundary set; tall masks only with windows that keep the output small",
@@ -353,6 +355,7 @@ func c04Run(c *mc.Ctx) {
 	})
 
 	c04DecodeTall(c, c.Pick(9, 11))
+	c04DecodeVeryTall(c, c.Pick(20, 22))
 	// ---- Decode: larger masks with empty / full / singletons / pairs (bitmaps of several words)
 	var lj []int32
 	for h := 4; h <= decH; h++ {
@@ -492,7 +495,105 @@ func c04DecodeTall(c *mc.Ctx, maxH int) {
 	})
 }
 
+// c04VeryTallBitmap: the indexes set in the generated bitmap of the given shape over T stored nodes.
+func c04VeryTallIdx(T int, shape string) []int {
+	if shape == "all" {
+		idx := make([]int, T)
+		for i := range idx {
+			idx[i] = i
+		}
+		return idx
+	}
+	seen := map[int]bool{}
+	var idx []int
+	add := func(i int) {
+		if i >= 0 && i < T && !seen[i] {
+			seen[i] = true
+			idx = append(idx, i)
+		}
+	}
+	for i := 0; i < 70; i++ {
+		add(i)
+		add(T - 1 - i)
+	}
+	for k := 1; k < 16; k++ {
+		for d := -2; d <= 2; d++ {
+			add(int(int64(T)*int64(k)/16) + d)
+		}
+	}
+	for b := uint(6); 1<<b < T; b++ {
+		for d := -2; d <= 1; d++ {
+			add(1<<b + d)
+			add(T - 1<<b + d)
+		}
+	}
+	sort.Ints(idx)
+	return idx
+}
+
+// c04VeryTallOne: Decode of one generated bitmap over a mask of height 16..22 (10^5 .. 10^7 stored nodes):
+// the tall partial trees on which PathToIndex leaves its small-operand paths.
+func c04VeryTallOne(mask int32, shape string) (got, want string) {
+	_, stored := treeNodes(mask)
+	T := int(mask)
+	idx := c04VeryTallIdx(T, shape)
+	bm := make([]uint64, (T+63)/64)
+	w := make([]uint64, 0, len(idx))
+	for _, i := range idx {
+		bm[i>>6] |= 1 << uint(i&63)
+		w = append(w, stored[i])
+	}
+	sort.Slice(w, func(a, b int) bool { return w[a] < w[b] })
+	g, p := decode(mask, bm)
+	if p != "" {
+		return p, fmt.Sprintf("%d paths", len(w))
+	}
+	if len(g) != len(w) {
+		return fmt.Sprintf("%d paths", len(g)), fmt.Sprintf("%d paths", len(w))
+	}
+	for i := range w {
+		if g[i] != w[i] {
+			return fmt.Sprintf("path %d = %#x", i, g[i]), fmt.Sprintf("path %d = %#x", i, w[i])
+		}
+	}
+	return "as expected", "as expected"
+}
+
+func c04DecodeVeryTall(c *mc.Ctx, maxH int) {
+	type job struct {
+		mask  int32
+		shape string
+	}
+	var jobs []job
+	for h := 16; h <= maxH; h++ {
+		top := int32(1) << uint(h)
+		full := top<<1 - 1
+		for _, m := range []int32{top, full, top | 1, top | 1<<uint(h/2), top | 1<<uint(h/2) | 1, full & 0x55555555, top | top>>1 | top>>2, full &^ 1, full &^ (top >> 1)} {
+			m |= top
+			for _, sh := range []string{"all", "sampled"} {
+				jobs = append(jobs, job{m, sh})
+			}
+		}
+	}
+	c.Expect(int64(len(jobs)))
+	c.Par(len(jobs), func(ji int) {
+		if c.TooMany() {
+			return
+		}
+		j := jobs[ji]
+		if g, w := c04VeryTallOne(j.mask, j.shape); g != w {
+			c.Fail(6<<48|int64(ji), "DecodeVeryTall", "Decode/very-tall", c04Case{Mask: j.mask, Shape: j.shape}, g, w)
+		}
+		c.Count(1, 1)
+		c.Add("decode_calls", 1)
+		c.Add("decode_very_tall_calls", 1)
+	})
+}
+
 func c04Judge(kind string, cs c04Case) (got, want string) {
+	if kind == "DecodeVeryTall" {
+		return c04VeryTallOne(cs.Mask, cs.Shape)
+	}
 	h := ref.Height(cs.Mask)
 	switch kind {
 	case "AllPaths":
